@@ -1,8 +1,9 @@
 #!/bin/bash
 # seed_matrix.sh [seeds...]: for every seeded change, apply it to a scratch worktree of /repo (HEAD), run the quick check
 # of the seed's own property against that worktree (VERIF_REPO), and record one line per seed in /verif/seeded/MATRIX.txt.
+# TAG=<name> selects the scratch names and the output file seeded/MATRIX.<name>.txt (several may run in parallel; concatenate afterwards).
 # Equivalent to `git -C /repo apply <patch>; ./check <ID>; git -C /repo checkout -- .` but leaves /repo untouched.
-WT=/tmp/seedwt; OUT=/verif/seeded/MATRIX.txt
+TAG=${TAG:-all}; WT=/tmp/seedwt_$TAG; OUT=/verif/seeded/MATRIX.$TAG.txt
 cd /verif
 git -C /repo worktree remove --force $WT 2>/dev/null; rm -rf $WT
 git -C /repo worktree add --detach $WT HEAD >/dev/null 2>&1 || exit 9
@@ -11,8 +12,8 @@ SEEDS=${@:-$(ls /verif/seeded | grep -E '^C[0-9]+[ab]$')}
 for S in $SEEDS; do
   P=$(echo $S | cut -c1-3)
   git -C $WT checkout -q -- . ; git -C $WT apply /verif/seeded/$S/patch.diff || { echo "$S $P PATCH-DOES-NOT-APPLY" | tee -a $OUT.new; continue; }
-  out=$(VERIF_REPO=$WT VERIF_BUILD=/tmp/seedbuild ./check $P --no-evidence --jobs ${JOBS:-8} 2>&1); rc=$?
+  out=$(VERIF_REPO=$WT VERIF_BUILD=/tmp/seedbuild_$TAG ./check $P --no-evidence --jobs ${JOBS:-8} 2>&1); rc=$?
   echo "$S $P rc=$rc violations=$(echo "$out" | grep -c '^VIOLATION') :: $(echo "$out" | grep -E '^  (violated|inconclusive):' | cut -c1-90 | tr '\n' ';') :: $(echo "$out" | grep '^    - ' | head -2 | cut -c1-170 | tr '\n' '|')" | tee -a $OUT.new
 done
 mv $OUT.new $OUT
-git -C /repo worktree remove --force $WT; rm -rf $WT /tmp/seedbuild
+git -C /repo worktree remove --force $WT; rm -rf $WT /tmp/seedbuild_$TAG
